@@ -1,6 +1,6 @@
 """C11 -- exclude / preserve policies touch only the offending elements"""
 from decimal import Decimal
-from typing import Dict, FrozenSet, List, Set, Tuple
+from typing import Dict, FrozenSet, List, Optional, Set, Tuple, Union
 
 import utype
 from utype import Field, Options, Rule, Schema, exc, types
@@ -57,7 +57,15 @@ def seq_eq(a, b):
 # ------------------------------------------------------------------ ordered sequences
 def _seq(V, origin):
     a, ET = elem_type(V)
+    wrapped = origin.startswith('optional-') or origin.startswith('union-')
+    wrap = origin.split('-')[0] if wrapped else None
+    origin = origin.split('-')[-1]
     T = {'list': List[ET], 'tuple': Tuple[ET, ...]}[origin]
+    if wrap == 'optional':
+        # the container is one argument of a union: the union's stricter passes must not apply the policy early
+        T = Optional[T]
+    elif wrap == 'union':
+        T = Union[T, Dict[str, ET]]
     T = Rule.parse_annotation(T)
     pol = V.pick('invalid_items', POLICIES)
     xs = elements(V, V.T(3, 4))
@@ -84,9 +92,9 @@ def _seq(V, origin):
     V.cover('offender' if bad else 'clean')
 
 
-for _o in ('list', 'tuple'):
+for _o in ('list', 'tuple', 'optional-list', 'union-list', 'optional-tuple'):
     ob('seq/' + _o, marks=['offender', 'clean'], budget=(60, 300),
-       bounds='%s of n <= 3 (4 thorough) elements, each a solver int in -4..4 | "x" | "5" (thorough: also "-9", None); element type '
+       bounds='%s (optional-: Optional[...], union-: Union[..., Dict[str, E]]) of n <= 3 (4 thorough) elements, each a solver int in -4..4 | "x" | "5" (thorough: also "-9", None); element type '
               'Rule[int](ge=a), a in -2..2 symbolic; invalid_items policy solver-picked' % _o,
        out='longer sequences; nested containers (see nested/*)')((lambda o: lambda V: _seq(V, o))(_o))
 
